@@ -209,6 +209,46 @@ Section Rig.
       ]
     end.
 
+  (** *** experimental (C04): the objects solely owned, transitively, by a value whose destruction
+      is running are frozen for every activation other than that value's own drop glue *)
+  Definition sole_local (wk pcok : bool) (m : machine) (t : id) (x : obj) : bool :=
+    is_alloc x && is_live x && N.eqb (h_rc (o_hdr x)) 1 && Nat.eqb (refs m t) 1 && Nat.eqb (ext_refs m t) 0
+    && negb (marked x) && (pcok || mark_eqb (h_mark (o_hdr x)) NM)
+    && (wk || Nat.eqb (wrefs m t) 0).
+  Definition holder_in (m : machine) (acc : list id) (t : id) : bool :=
+    existsb (fun q => match heap m !! q with Some y => 0 <? obj_refs t y | None => false end) acc.
+  Definition sole_roots (c : call) (m : machine) : list id :=
+    omap (fun a => a) (imap (fun p x => if is_v VDropping x && match ex_of c with Some e => negb (Nat.eqb e p) | None => true end
+                                    then Some p else None) (heap m)).
+  Fixpoint sole_close (wk pcok : bool) (m : machine) (k : nat) (acc : list id) : list id :=
+    match k with
+    | O => acc
+    | S k' =>
+      let new := omap (fun a => a) (imap (fun t x => if sole_local wk pcok m t x && negb (mem_id t acc) && holder_in m acc t
+                                                 then Some t else None) (heap m)) in
+      match new with [] => acc | _ => sole_close wk pcok m k' (new ++ acc) end
+    end.
+  Definition sole_set (wk pcok : bool) (c : call) (m : machine) : list id :=
+    let roots := sole_roots c m in
+    filter (fun t => negb (mem_id t roots)) (sole_close wk pcok m (length (heap m)) roots).
+  Definition ess_eqb (x y : obj) : bool :=
+    N.eqb (h_rc (o_hdr x)) (h_rc (o_hdr y)) && Bool.eqb (marked x) (marked y) && vst_eqb (o_vst x) (o_vst y)
+    && box_eqb (o_box x) (o_box y) && Bool.eqb (h_fin (o_hdr x)) (h_fin (o_hdr y))
+    && (if decide (o_fields x = o_fields y) then true else false)
+    && (if decide (o_cleaner x = o_cleaner y) then true else false).
+  Definition frozen (eqb : obj -> obj -> bool) (l : list id) (m m' : machine) : bool :=
+    forallb (fun t => match heap m !! t, heap m' !! t with Some x, Some x' => eqb x' x | _, _ => false end) l.
+  Definition sole_codes (c : call) (m m' : machine) : list nat :=
+    match sole_roots c m with
+    | [] => []
+    | _ => codes [(240, frozen obj_eqb (sole_set false false c m) m m');
+                  (244, frozen obj_eqb (sole_set false true c m) m m');
+                  (243, frozen ess_eqb (sole_set false true c m) m m');
+                  (245, forallb (fun t => Nat.eqb (wrefs m' t) 0) (sole_set false true c m));
+                  (242, frozen ess_eqb (sole_set true false c m) m m');
+                  (241, frozen ess_eqb (sole_set true true c m) m m')]
+    end.
+
   Definition post_codes (c : call) (m m' : machine) (r : outcome) : list nat :=
     match r with
     | ONormal | OPanic =>
@@ -222,6 +262,7 @@ Section Rig.
                                                    (match heap m' !! o with Some x' => is_v VDropped x' | None => false end)) (dead m')
                    | _ => true end)]
       ++ concat (imap (objfr_codes c m m') (heap m))
+      ++ sole_codes c m m'
       ++ (let quiet o := match heap m !! o with
                           | Some x => if o_ismap x && match o_mslots x with [] => true | _ => false end
                                       then forallb (fun '(p, y) => Nat.eqb p o || match heap m' !! p with Some y' => obj_eqb y' y | None => false end)
